@@ -41,20 +41,21 @@ type DScenario struct {
 }
 
 type dworld struct {
-	sc     *DScenario
-	rec    *ab.Recorder
-	stats  map[string]int
-	eng    *ab.Engine
-	cp     *cp.CommandProcessor
-	dma    *cp.DMAEngine
-	drv    sim.Port // stands for the driver's port (only its name is used)
-	cyc    int
-	memory []byte
-	owedM  []mem.AccessReq   // requests the memory has received and not answered
-	owedC  []*cache.FlushReq // flushes the caches have received and not acknowledged
-	count  map[string]int
-	issued int
-	doneN  int
+	sc      *DScenario
+	rec     *ab.Recorder
+	stats   map[string]int
+	eng     *ab.Engine
+	cp      *cp.CommandProcessor
+	dma     *cp.DMAEngine
+	drv     sim.Port // stands for the driver's port (only its name is used)
+	cyc     int
+	memory  []byte
+	owedM   []mem.AccessReq   // requests the memory has received and not answered
+	owedC   []*cache.FlushReq // flushes the caches have received and not acknowledged
+	count   map[string]int
+	awaited map[string]int
+	issued  int
+	doneN   int
 }
 
 func (w *dworld) emit(e string, f ab.Rec) {
@@ -63,7 +64,7 @@ func (w *dworld) emit(e string, f ab.Rec) {
 }
 
 func newDWorld(sc *DScenario, rec *ab.Recorder, stats map[string]int) *dworld {
-	w := &dworld{sc: sc, rec: rec, stats: stats, eng: ab.NewEngine(), count: map[string]int{}}
+	w := &dworld{sc: sc, rec: rec, stats: stats, eng: ab.NewEngine(), count: map[string]int{}, awaited: map[string]int{}}
 	if sc.Line == 0 {
 		sc.Line = 6
 	}
@@ -383,8 +384,10 @@ func (w *dworld) step(s *DStep) {
 		}
 		w.tick(n)
 	case "await":
-		c0 := w.count[s.E]
-		ok = w.settle(40, func() bool { return w.count[s.E] > c0 })
+		// the k-th await of an event is satisfied once the event has happened k times
+		w.awaited[s.E]++
+		k := w.awaited[s.E]
+		ok = w.settle(40, func() bool { return w.count[s.E] >= k })
 	default:
 		panic("unknown step " + s.A)
 	}
